@@ -17,7 +17,8 @@ HEADER = "From V.C08 Require Import Model Spec Run.\nOpen Scope string_scope.\n"
 
 KIND = {1: "instanceof", 2: "instanceof-this", 3: "param", 4: "param-this", 5: "catch",
         6: "call", 7: "self", 8: "static", 9: "parent", 10: "like",
-        11: "parent-static", 12: "parent-self", 13: "parent-parent"}
+        11: "parent-static", 12: "parent-self", 13: "parent-parent", 14: "like-this", 15: "catch-union",
+        16: "static-entry-self", 17: "static-entry-static", 18: "static-entry-parent"}
 
 
 # ------------------------------------------------------------------ hierarchy -> script
@@ -43,20 +44,27 @@ def class_head(c):
 def s_script(h, probes):
     """subtype probes; root classes carry the $this helpers (not part of the model's tables)"""
     types = [c["name"] for c in h["classes"]] + [i["name"] for i in h["ifaces"]]
-    out = [helper_b()] + decl_ifaces(h)
+    hu = {"classes": h["classes"], "ifaces": [i for i in h["ifaces"] if not i.get("builtin")]}
+    out = [helper_b()] + decl_ifaces(hu)
     for t in types:
         out.append("function p_%s(%s $x) { return 1; }" % (t, t))
     for c in h["classes"]:
+        if c.get("builtin"):
+            continue
         out.append(class_head(c))
-        if c["extends"] is None:
+        if c["extends"] is None or c["extends"] == "Exception":
             out.append('  public function th($t) { return ($this instanceof $t) ? "1" : "0"; }')
             for t in types:
                 out.append('  public function tp_%s() { try { p_%s($this); return "1"; } catch (Throwable $e) { return "0"; } }' % (t, t))
         out.append("}")
     for c in h["classes"]:
-        out.append("$o_%s = new %s();" % (c["name"], c["name"]))
+        if not c.get("builtin"):
+            out.append('$o_%s = new %s(%s);' % (c["name"], c["name"], '"m"' if h.get("exceptions") else ""))
     for p in probes:
-        k, n, t = p
+        k, n, t = p[0], p[1], p[2]
+        if k == "catch-union":
+            out.append('try { throw $o_%s; } catch (%s | %s $e) { echo "1\\n"; } catch (%s $e) { echo "0\\n"; }' % (n, t, p[3], n))
+            continue
         if k == "instanceof":
             out.append('echo b($o_%s instanceof %s), "\\n";' % (n, t))
         elif k == "instanceof-this":
@@ -71,7 +79,9 @@ def s_script(h, probes):
 
 
 BODIES = {"ks": "return self::s();", "kt": "return static::s();", "kp": "return parent::f();", "kq": "return parent::s();",
-          "kr": "return parent::kt();", "kv": "return parent::ks();", "kw": "return parent::kp();"}
+          "kr": "return parent::kt();", "kv": "return parent::ks();", "kw": "return parent::kp();",
+          # static methods entered as C::zs() from top level
+          "zs": "return self::s();", "zt": "return static::s();", "zp": "return parent::s();"}
 
 
 def d_script(h, probes):
@@ -82,6 +92,8 @@ def d_script(h, probes):
             params = ", ".join("$p%d = 0" % k for k in range(a))
             if m in BODIES:
                 body = BODIES[m]
+            elif m.startswith("lk_"):
+                body = "return b($this like %s);" % m[3:]
             else:
                 body = 'return "%s::%s";' % (c["name"], m)
             out.append("  public %sfunction %s(%s) { %s }" % ("static " if st else "", m, params, body))
@@ -91,6 +103,10 @@ def d_script(h, probes):
     for p in probes:
         if p[0] == "like":
             out.append('echo b($o_%s like %s), "\\n";' % (p[1], p[2]))
+        elif p[0] == "like-this":
+            out.append('echo $o_%s->lk_%s(), "\\n";' % (p[1], p[2]))
+        elif p[0].startswith("static-entry"):
+            out.append('try { echo %s::%s(), "\\n"; } catch (Throwable $e) { echo "ERR\\n"; }' % (p[1], p[2]))
         else:
             # call / self / static / parent: all are `$o->method()`; what is printed is Class::name of
             # the definition that finally ran
@@ -142,6 +158,13 @@ def coq_probe(p):
     if k in ("parent-static", "parent-self", "parent-parent"):
         return "%s %s %s %s %s" % ({"parent-static": "PParentStatic", "parent-self": "PParentSelf", "parent-parent": "PParentParent"}[k],
                                    q(p[1]), q(p[2]), q(p[3]), q(p[4]))
+    if k == "like-this":
+        return "PLikeThis %s %s" % (q(p[1]), q(p[2]))
+    if k == "catch-union":
+        return "PCatchUnion %s %s %s" % (q(p[1]), q(p[2]), q(p[3]))
+    if k in ("static-entry-self", "static-entry-static", "static-entry-parent"):
+        return "%s %s %s %s" % ({"static-entry-self": "PSEntrySelf", "static-entry-static": "PSEntryStatic", "static-entry-parent": "PSEntryParent"}[k],
+                                q(p[1]), q(p[2]), q(p[3]))
     raise ValueError(k)
 
 
@@ -153,7 +176,7 @@ def parse_answers(out, probes):
         return None
     res = []
     for l, p in zip(lines, probes):
-        if p[0] in ("instanceof", "instanceof-this", "param", "param-this", "catch", "like"):
+        if p[0] in ("instanceof", "instanceof-this", "param", "param-this", "catch", "like", "like-this", "catch-union"):
             if l not in ("0", "1"):
                 return None
             res.append("ABool %s" % ("true" if l == "1" else "false"))
@@ -177,9 +200,17 @@ def subtype_probes(h):
     types = [c["name"] for c in h["classes"]] + [i["name"] for i in h["ifaces"]]
     ps = []
     for c in h["classes"]:
+        if c.get("builtin"):
+            continue
         for t in types:
             for k in ("instanceof", "instanceof-this", "param", "param-this", "catch"):
                 ps.append((k, c["name"], t))
+        # catch (T1 | T2): every unordered pair when the hierarchy is small, else the first type with each other
+        pairs = [(a, b) for i, a in enumerate(types) for b in types[i + 1:]]
+        if len(types) > 4:
+            pairs = pairs[:len(types)]
+        for a, b in pairs:
+            ps.append(("catch-union", c["name"], a, b))
     return ps
 
 
@@ -226,6 +257,14 @@ def dispatch_probes(h, like_targets):
             ps.append(("parent-parent", r, "kw", "kp", "f"))
         for t in like_targets:
             ps.append(("like", r, t))
+            if ("lk_" + t) in names:
+                ps.append(("like-this", r, t))
+        if "zs" in names:
+            ps.append(("static-entry-self", r, "zs", "s"))
+        if "zt" in names:
+            ps.append(("static-entry-static", r, "zt", "s"))
+        if "zp" in names:
+            ps.append(("static-entry-parent", r, "zp", "s"))
     return ps
 
 
@@ -245,8 +284,10 @@ def enum_dispatch():
                     if bits[k] & 2:
                         ms.append(("s", True, 0))
                     if par[k] is None:
-                        ms += [("ks", False, 0), ("kt", False, 0)]
+                        ms += [("ks", False, 0), ("kt", False, 0), ("zs", True, 0), ("zt", True, 0)]
+                        ms += [("lk_" + t, False, 0) for t in ["C%d" % (j + 1) for j in range(n)] + ["M1"]]
                     else:
+                        ms.append(("zp", True, 0))
                         ms += [("kp", False, 0), ("kq", False, 0), ("kr", False, 0), ("kv", False, 0)]
                         if par[par[k]] is not None:
                             ms.append(("kw", False, 0))
@@ -285,6 +326,11 @@ def seeded_hierarchy(rng, with_methods):
             for mname in ("ks", "kt"):
                 if rng.random() < 0.4:
                     ms.append((mname, False, 0))
+            for mname in ("zs", "zt"):
+                if rng.random() < 0.35:
+                    ms.append((mname, True, 0))
+            if par is not None and rng.random() < 0.4:
+                ms.append(("zp", True, 0))
             if par is not None:
                 for mname in ("kp", "kq", "kr", "kv"):
                     if rng.random() < 0.5:
@@ -307,6 +353,9 @@ def seeded(rng, n_sub, n_disp):
             ducks.append({"name": "M%d" % (k + 1), "extends": [], "methods": ms})
         h["ifaces"] = h["ifaces"] + ducks
         targets = [c["name"] for c in h["classes"]] + [d["name"] for d in ducks]
+        for c in h["classes"]:
+            if c["extends"] is None:
+                c["methods"] = c["methods"] + [("lk_" + t, False, 0) for t in targets]
         cases.append({"h": h, "probes": dispatch_probes(h, targets), "script": "d", "gen": "seeded-dispatch"})
     return cases
 
@@ -349,6 +398,18 @@ def deep_cases(rng):
         top = [("T0", [])] + [("T%d" % k, ["T%d" % (k - 1)]) for k in range(1, tail + 1)]
         dia2 = [("D1a", ["T%d" % tail]), ("D1b", ["T%d" % tail]), ("D2", ["D1a", "D1b"]), ("D3", ["D2"])]
         mk([("C1", None, ["D3"]), ("C2", "C1", [])], top + dia2, "chain+diamond")
+    # the built-in exception hierarchy: user classes under Exception (class Exception implements Throwable),
+    # probed against Exception / Throwable / their own interfaces, incl. catch (Throwable) and union catch
+    EXC = {"name": "Exception", "extends": None, "impls": ["Throwable"], "methods": [], "builtin": True}
+    THR = {"name": "Throwable", "extends": [], "methods": [], "builtin": True}
+    for shape in ([("E1", "Exception", ["I1"]), ("E2", "E1", []), ("P", None, [])],
+                  [("E1", "Exception", []), ("E2", "Exception", ["I1"]), ("E3", "E2", []), ("P", None, ["I1"])]):
+        h = {"classes": [dict(EXC)] + [{"name": n, "extends": e, "impls": list(i), "methods": []} for n, e, i in shape],
+             "ifaces": [dict(THR), {"name": "I1", "extends": [], "methods": []}], "exceptions": True}
+        cases.append({"h": h, "probes": subtype_probes(h), "script": "s", "gen": "builtin-exceptions"})
+    # forward references: the extended interface is declared AFTER the extending one (I1 extends I2)
+    for impls in (["I1"], ["I2"], ["I1", "I2"]):
+        mk([("C1", None, impls), ("C2", "C1", [])], [("I1", ["I2"]), ("I2", [])], "forward-reference")
     # seeded chain-biased hierarchies: each interface extends its predecessor with high probability
     for _ in range(60):
         m = rng.randint(4, 7)
